@@ -279,6 +279,18 @@ func TestVerifAdvRun(t *testing.T) {
 		emit(advScenario{ID: fmt.Sprintf("flood-%d", k), Min: 3 * time.Second, Max: 4 * time.Second, Offset: int64(k) * 1e9,
 			Events: evs, Horizon: 15e9, Burst: true, Tags: []string{"stream:flood"}})
 	}
+	// (c') storms: hundreds of solicitations in one instant (far more than any plausible per-window budget);
+	// each must still be answered once, by unicast, within 500 ms -- also in unicast-only mode
+	for k, n := range []int{300, 600} {
+		for _, uo := range []bool{false, true} {
+			var evs []advEvent
+			for j := 0; j < n; j++ {
+				evs = append(evs, advEvent{At: 5e9 + 1, Src: verifh.Pick(r, advSources)})
+			}
+			emit(advScenario{ID: fmt.Sprintf("storm-%d-%v", k, uo), UnicastOnly: uo, Min: 3 * time.Second, Max: 4 * time.Second, Offset: int64(k) * 1e9,
+				Events: evs, Horizon: 15e9, Burst: true, Tags: []string{"stream:storm", fmt.Sprintf("unicast_only:%v", uo)}})
+		}
+	}
 	// (d) reinitialization (a link event) in the middle of a run: the second incarnation starts over
 	// from its own initial RA (rate limit, loop index, PRNG seeds)
 	nre := 40
